@@ -78,6 +78,14 @@ CLAIMED["C12"] = (
     "for default optional arguments).",
     "hash()/frozenset shadowed by structural keys; np.array2string idealised as injective on the rounded entries (numpy's "
     "scientific-notation regime is outside); discrete attributes varied one at a time; floats as reals", "2/C12")
+CLAIMED["C06"] = (
+    "Shape.contains_point and the exported planar geometry of circles, rectangles, polygons and shape groups are compared, for "
+    "symbolic parameters and query points, with the sets they denote; find_lanelet_by_position / find_lanelet_by_shape / "
+    "Lanelet.contains_points / get_obstacles / map_obstacles_to_lanelets / filter_obstacles_in_network run on four concrete "
+    "network layouts built through four construction routes with a symbolic query point / query shape / obstacle position and "
+    "are compared with an independently written geometric oracle (per-segment quadrilaterals, separating axes).",
+    "shapely and STRtree replaced by shapely-lite / STRtree-lite (closed-set predicates, exact discs); lanelets of <= 3 "
+    "vertices; query rectangles axis-parallel; known finding: Circle.shapely_object has half the radius", "2/C06")
 NOT_YET = {}
 
 props = [json.loads(l) for l in open(os.path.join(ROOT, "properties.jsonl"))]
